@@ -358,6 +358,8 @@ Section Proofs.
       unfold pq_accepts, Formats.pq_write_gate. intros Ha Hg Hc.
       destruct (find_shape (pname g) (pq_wbranches P)); [|discriminate].
       unfold Formats.pq_guard. rewrite Hg.
+      destruct (smem (pname g) (pq_w_single_target P) && negb (length (ptarget g) =? 1)%nat); [eexists; reflexivity|].
+      cbv beta iota delta [bind].
       destruct (pcontrol g) as [[|c0 [|c1 r]]|] eqn:E; simpl; try (eexists; reflexivity).
       exfalso. apply (Hc c0). reflexivity.
     Qed.
@@ -367,6 +369,26 @@ Section Proofs.
     Proof.
       intros Hin Ha Hg Hc. unfold Formats.pq_write.
       destruct (mapM_err_in (pq_write_gate Ang P) (fgates c) g Hin (pq_write_gate_guarded g Ha Hg Hc)) as [e He].
+      rewrite He. eexists. reflexivity.
+    Qed.
+
+    (* a target-guarded kind on no / several targets is refused by the guard itself *)
+    Lemma pq_write_gate_target_guarded (g : pgate) :
+      pq_accepts P (pname g) = true -> smem (pname g) (pq_w_single_target P) = true ->
+      length (ptarget g) <> 1 -> pq_write_gate Ang P g = Err ValueError.
+    Proof.
+      unfold pq_accepts, Formats.pq_write_gate. intros Ha Hg Hl.
+      destruct (find_shape (pname g) (pq_wbranches P)); [|discriminate].
+      unfold Formats.pq_guard. rewrite Hg.
+      destruct (Nat.eqb_spec (length (ptarget g)) 1) as [E|E]; [contradiction|]. reflexivity.
+    Qed.
+    Theorem pq_refuses_multitarget (c : fcirc Ang) (g : pgate) :
+      In g (fgates c) -> pq_accepts P (pname g) = true -> smem (pname g) (pq_w_single_target P) = true ->
+      length (ptarget g) <> 1 -> exists e, pq_write Ang P c = Err e.
+    Proof.
+      intros Hin Ha Hg Hl. unfold Formats.pq_write.
+      destruct (mapM_err_in (pq_write_gate Ang P) (fgates c) g Hin) as [e He].
+      { eexists. apply pq_write_gate_target_guarded; assumption. }
       rewrite He. eexists. reflexivity.
     Qed.
 
@@ -438,6 +460,15 @@ Section Proofs.
     (* "Allocate | Qureg[i]" instructions are among those the reader deletes *)
     Definition pq_alloc_ignored : bool := existsb (fun lit => containsb lit "Allocate") (pq_ignored P).
 
+    Lemma pq_guard_ok n q (c : option (list Z)) (p : param) v :
+      (smem n (pq_w_single_ctrl P) = false \/ exists c0, c = Some [c0]) ->
+      pq_guard Ang P (PGate n [q] c p v) = Ok tt.
+    Proof.
+      intro H. unfold Formats.pq_guard. simpl. rewrite andb_false_r. simpl.
+      destruct H as [H|[c0 ->]]; [rewrite H; reflexivity|].
+      destruct (smem n (pq_w_single_ctrl P)); reflexivity.
+    Qed.
+
     Lemma pq_gate_roundtrip g :
       pq_survives T P (pname g) = true -> gate_valid g -> pq_expressible g ->
       exists l, pq_write_gate g = Ok l /\ pq_is_ignored l = false /\ exists g', pq_read_line l = Ok g' /\ came_back g g'.
@@ -460,7 +491,7 @@ Section Proofs.
       - (* PQS1 *) subst p.
         assert (c = None) as ->.
         { destruct c as [cl|]; [|reflexivity]. rewrite (valid_control_C _ _ _ _ _ Hv) in HC. discriminate. }
-        unfold Formats.pq_guard; simpl. apply negb_true_iff in HG. rewrite HG. simpl.
+        rewrite pq_guard_ok; [|left; apply negb_true_iff; assumption]. simpl.
         eexists. split; [reflexivity|]. split; [apply Hig|].
         unfold Formats.pq_read_line. simpl. rewrite Hsh', Hr. simpl.
         pose proof (valid_rename n [q] None PNone v n' PNone false Hv Har ltac:(intro X; contradiction)) as Hm.
@@ -468,14 +499,14 @@ Section Proofs.
       - (* PQS1p *) destruct Hx as [a ->].
         assert (c = None) as ->.
         { destruct c as [cl|]; [|reflexivity]. rewrite (valid_control_C _ _ _ _ _ Hv) in HC. discriminate. }
-        unfold Formats.pq_guard; simpl. apply negb_true_iff in HG. rewrite HG. simpl.
+        rewrite pq_guard_ok; [|left; apply negb_true_iff; assumption]. simpl.
         eexists. split; [reflexivity|]. split; [apply Hig|].
         unfold Formats.pq_read_line. simpl. rewrite Hsh', Hr. simpl.
         pose proof (valid_rename n [q] None (PNum a) v n' (PNum a) false Hv Har ltac:(intro X; contradiction)) as Hm.
         simpl in Hm. rewrite Hm. eexists. split; [reflexivity|]. exists n'. split; [assumption | reflexivity].
       - (* PQS2 *) destruct Hx as [-> [c0 ->]]. simpl.
         assert (HGd : pq_guard Ang P (PGate n [q] (Some [c0]) PNone v) = Ok tt).
-        { unfold Formats.pq_guard; simpl. destruct (smem n (pq_w_single_ctrl P)); reflexivity. }
+        { apply pq_guard_ok. right. eexists. reflexivity. }
         rewrite HGd. simpl.
         eexists. split; [reflexivity|]. split; [apply Hig|].
         unfold Formats.pq_read_line. simpl. rewrite Hsh', Hr. simpl.
@@ -593,6 +624,53 @@ Section Proofs.
       rewrite Forall_forall in *. intros g Hg. apply pq_tables_ok_survives; [assumption|].
       specialize (Hx g Hg). unfold Formats.pq_expressible in Hx. destruct Hx as [_ Hx]. unfold pq_accepts.
       destruct (find_shape (pname g) (pq_wbranches P)); [reflexivity | contradiction].
+    Qed.
+
+    (* what the writer does write is expressible: the guards (regenerated) and gate.py's arity table leave
+       nothing else *)
+    Lemma pq_written_expressible g l :
+      pq_guards_ok T P = true -> gate_valid g -> pq_param_ok Ang P g -> pq_write_gate g = Ok l -> pq_expressible g.
+    Proof.
+      intros Hg Hv Hp Hw. destruct g as [n t c p v].
+      unfold Formats.pq_write_gate, Formats.pq_param_ok, Formats.pq_expressible in *. simpl in *.
+      destruct (find_shape n (pq_wbranches P)) as [sh|] eqn:Hsh; [|discriminate].
+      unfold pq_guards_ok in Hg. rewrite forallb_forall in Hg.
+      specialize (Hg n (find_shape_in _ _ _ Hsh)). rewrite Hsh in Hg.
+      apply andb_prop in Hg. destruct Hg as [Ht Hc].
+      destruct (pq_guard Ang P (PGate n t c p v)) as [[]|e] eqn:HG; simpl in Hw; [|discriminate].
+      unfold Formats.pq_guard in HG. simpl in HG.
+      assert (Hone : exists q, t = [q]).
+      { apply orb_prop in Ht. destruct Ht as [Ha|Hs].
+        - apply arity_eqb_eq in Ha. eapply valid_one_target; eassumption.
+        - rewrite Hs in HG. simpl in HG.
+          destruct (Nat.eqb_spec (length t) 1) as [E|E]; simpl in HG; [|discriminate].
+          destruct t as [|q [|q' r]]; simpl in E; try discriminate. exists q. reflexivity. }
+      split; [assumption|].
+      destruct sh; try assumption.
+      split; [assumption|].
+      destruct (smem n (pq_w_single_target P) && negb (length t =? 1)%nat); simpl in HG; [discriminate|].
+      rewrite Hc in HG. destruct c as [[|c0 [|c1 r]]|]; simpl in HG; try discriminate.
+      exists c0. reflexivity.
+    Qed.
+
+    (* NO SILENT ALTERATION: whatever the writer accepts to write comes back as an equal circuit.  The only
+       gate-level condition is on the parameter (a number on the rotation kinds, none elsewhere); arity and
+       number of controls are taken care of by the refusal guards regenerated from the source. *)
+    Theorem projectq_written_roundtrips (c : fcirc Ang) ls :
+      pq_tables_ok T P = true -> pq_alloc_ignored = true -> pq_guards_ok T P = true ->
+      circ_ok c -> (pq_restores_width P = false -> fwidth c = gates_width (fgates c)) ->
+      Forall (pq_param_ok Ang P) (fgates c) -> Forall (fun g : pgate => pvar g = false) (fgates c) ->
+      pq_write c = Ok ls -> exists c', pq_read ls = Ok c' /\ circ_eq c c' = true.
+    Proof.
+      intros Hok Hal Hg Hc Hw Hp Hnv Hwr.
+      assert (Hx : Forall pq_expressible (fgates c)).
+      { unfold Formats.pq_write in Hwr.
+        destruct (mapM pq_write_gate (fgates c)) as [rs|e] eqn:E; simpl in Hwr; [|discriminate].
+        destruct (mapM_ok_all _ _ _ E) as [_ Hall]. destruct Hc as [Hv _].
+        rewrite Forall_forall in *. intros g Hin. destruct (Hall g Hin) as [l Hl].
+        eapply pq_written_expressible; [assumption | apply Hv; assumption | apply Hp; assumption | eassumption]. }
+      destruct (projectq_roundtrip c Hok Hal Hc Hw Hx Hnv) as (ls' & c' & H1 & H2 & H3).
+      rewrite Hwr in H1. inversion H1; subst. exists c'. split; assumption.
     Qed.
   End ProjectQ.
 
